@@ -17,6 +17,8 @@ import (
 // "hang" and reported by the parent as violation class "hang"):
 //
 //   ket t <rf> <nq> <eps> <series>     the shared ketama op (ket.go); compared with the model
+//   o.load2 <algo> <rf> <confighex>    oracle-only: o.load, then the same configuration again with the same
+//                                      registerer (the sequence of a hashring file update)
 //   o.load <algo> <rf> <confighex>     oracle-only: receive.ParseConfig + receive.NewMultiHashring
 //                                      on a JSON configuration (SectionsPerNode = 1000, shuffle
 //                                      sharding, several hashrings) -> ok:<nodes> | <error class>
@@ -110,7 +112,7 @@ func execC19(v *vctx, tok []string) string {
 			v.Violation("unexpected-error", "ring construction failed with "+k.status)
 		}
 		return k.answer
-	case "o.load":
+	case "o.load", "o.load2":
 		if len(tok) != 4 {
 			return "bad-op"
 		}
@@ -124,13 +126,49 @@ func execC19(v *vctx, tok []string) string {
 			v.Count("load:parse-error")
 			return "parse-error"
 		}
-		h, err := receive.NewMultiHashring(receive.HashringAlgorithm(tok[1]), uint64(rf), cfg, prometheus.NewRegistry())
-		if err != nil {
-			c := classifyBuildErr(err)
-			v.Count("load:" + strings.SplitN(c, ":", 2)[0])
-			return c
+		// shuffle sharded hashrings, and whether two of them share a name
+		sharded, sameName := 0, false
+		names := map[string]bool{}
+		for _, c := range cfg {
+			algo := tok[1]
+			if c.Algorithm != "" {
+				algo = string(c.Algorithm)
+			}
+			if c.ShuffleShardingConfig.ShardSize > 0 && algo == "ketama" {
+				sharded++
+				if names[c.Hashring] {
+					sameName = true
+				}
+				names[c.Hashring] = true
+			}
 		}
-		defer h.Close()
+		reg := prometheus.NewRegistry()
+		load := func() (h receive.Hashring, class string, pmsg string) {
+			defer func() {
+				if r := recover(); r != nil {
+					h, class, pmsg = nil, "panic", fmt.Sprint(r)
+				}
+			}()
+			h, err := receive.NewMultiHashring(receive.HashringAlgorithm(tok[1]), uint64(rf), cfg, reg)
+			if err != nil {
+				return nil, classifyBuildErr(err), ""
+			}
+			return h, "ok", ""
+		}
+		h, class, pmsg := load()
+		if class == "panic" {
+			v.Count("load:panic")
+			if strings.Contains(pmsg, "duplicate metrics collector registration") && sameName {
+				v.Violation("load-panic-duplicate-metrics", "NewMultiHashring panics (duplicate metrics collector registration): two shuffle sharded hashrings of the configuration have the same (or no) name")
+			} else {
+				v.Violation("load-panic", "NewMultiHashring panics: "+pmsg)
+			}
+			return "panic"
+		}
+		if class != "ok" {
+			v.Count("load:" + strings.SplitN(class, ":", 2)[0])
+			return class
+		}
 		v.Count("load:ok")
 		// usable: every tenant-less lookup on the returned ring answers (error or endpoint) for n < rf
 		for i := 0; i < 3; i++ {
@@ -141,6 +179,28 @@ func execC19(v *vctx, tok []string) string {
 				}
 			}
 		}
+		if tok[0] == "o.load2" {
+			// a configuration update: cmd/thanos/receive.go builds the new hashring with the same
+			// registerer while the old one is still in use, and closes the old one afterwards
+			h2, class2, pmsg2 := load()
+			if class2 == "panic" {
+				v.Count("reload:panic")
+				if strings.Contains(pmsg2, "duplicate metrics collector registration") && sharded > 0 {
+					v.Violation("reload-panic-duplicate-metrics", "loading a configuration with a shuffle sharded hashring a second time with the same registerer (what every hashring file update does) panics: duplicate metrics collector registration")
+				} else {
+					v.Violation("load-panic", "second NewMultiHashring panics: "+pmsg2)
+				}
+				h.Close()
+				return "reload-panic"
+			}
+			v.Count("reload:" + strings.SplitN(class2, ":", 2)[0])
+			h.Close()
+			if h2 != nil {
+				h2.Close()
+			}
+			return fmt.Sprintf("ok:%d", len(h.Nodes()))
+		}
+		defer h.Close()
 		return fmt.Sprintf("ok:%d", len(h.Nodes()))
 	}
 	return "bad-op"
@@ -237,6 +297,38 @@ func genC19(c *hlib.Ctx) {
 		b, _ := json.Marshal(cfg)
 		c.Count("load-gen:" + algo)
 		c.Do(fmt.Sprintf("o.load %s %d %s", algo, rf, hlib.Hex(b)), true)
+	}
+	// 2b. configuration updates: the same configuration loaded twice with one registerer
+	for i := 0; i < c.N(30, 300) && !gaveUp(); i++ {
+		l := ls[r.Intn(len(ls))]
+		for l.total() > 6 {
+			l = ls[r.Intn(len(ls))]
+		}
+		eps := materialise(r, l, 0)
+		cr := cfgRing{Hashring: r.Pick([]string{"", "default", "h1"})}
+		for _, e := range eps {
+			cr.Endpoints = append(cr.Endpoints, cfgEndpoint{Address: e.addr, AZ: e.az})
+		}
+		if r.Chance(1, 2) {
+			cr.Shard = &cfgShard{ShardSize: r.Range(1, l.total()), ZoneAwarenessDisabled: r.Bool()}
+			c.Count("reload-gen:shuffle-shard")
+		}
+		cfg := []cfgRing{cr}
+		if r.Chance(1, 3) { // a second hashring, sometimes with the same name
+			cr2 := cr
+			cr2.Tenants = []string{"t"}
+			if r.Bool() {
+				cr2.Hashring = cr.Hashring + "-2"
+			}
+			cfg = []cfgRing{cr2, cr}
+			c.Count("reload-gen:two-rings")
+		}
+		b, _ := json.Marshal(cfg)
+		op := "o.load2"
+		if r.Chance(1, 3) {
+			op = "o.load"
+		}
+		c.Do(fmt.Sprintf("%s ketama 1 %s", op, hlib.Hex(b)), true)
 	}
 	// 3. malformed stream: duplicate addresses (hash ties), rf 0, no endpoints, junk JSON
 	for i := 0; i < c.N(20, 200) && !gaveUp(); i++ {
